@@ -31,6 +31,8 @@ def signature(events, at):
         return "C08|%s|crash|%s" % (ev["sub"], kind)
     if ev.get("ok") and not ev.get("found"):
         return "C08|%s|not-searchable" % ev["sub"]
+    if ev.get("ok") and ev.get("pcheck") and not ev.get("pfound"):
+        return "C08|%s|not-found-by-pipeline-search" % ev["sub"]
     if ev.get("ok") and ev.get("cls") != "list":
         return "C08|%s|notebook-unreadable-after-save" % ev["sub"]
     if ev.get("ok"):
